@@ -10,7 +10,7 @@ import (
 )
 
 // engine intrinsics
-func verifUnderlying(x any) any { return x }
+func verifUnderlying(x any) any  { return x }
 func verifTypeName(x any) string { return "?" }
 
 type stringer interface{ String() string }
@@ -65,9 +65,9 @@ func Fmt_Fprintf(w io.Writer, format string, a ...any) (int, error) {
 	return io.WriteString(w, doPrintf(format, a))
 }
 
-func Fmt_Sprint(a ...any) string { return doPrint(a, false) }
-func Fmt_Sprintln(a ...any) string { return doPrint(a, true) }
-func Fmt_Fprint(w io.Writer, a ...any) (int, error) { return io.WriteString(w, doPrint(a, false)) }
+func Fmt_Sprint(a ...any) string                      { return doPrint(a, false) }
+func Fmt_Sprintln(a ...any) string                    { return doPrint(a, true) }
+func Fmt_Fprint(w io.Writer, a ...any) (int, error)   { return io.WriteString(w, doPrint(a, false)) }
 func Fmt_Fprintln(w io.Writer, a ...any) (int, error) { return io.WriteString(w, doPrint(a, true)) }
 func Fmt_Print(a ...any) (int, error) {
 	s := doPrint(a, false)
@@ -426,6 +426,8 @@ func fmtVerb(arg any, verb rune, f *flags) string {
 			}
 			if f.plus {
 				s = "+" + s
+			} else if f.space {
+				s = " " + s
 			}
 			return s
 		}
@@ -590,7 +592,7 @@ func fmtValue(x any, verb rune, sharp bool) string {
 
 // ---- errors ----
 
-func verifComparable(x any) bool       { return true }
+func verifComparable(x any) bool               { return true }
 func verifAssignTo(target any, err error) bool { return false }
 
 func Errors_Is(err, target error) bool {
